@@ -183,7 +183,11 @@ CLAIMS: dict[str, tuple[str, str, str, str]] = {
         "unconditional mini_total: for every source, every subset of those optional rules and every maxNesting the "
         "modelled parse (normalize, StateBlock line scan, block loop, rules) returns normally; that model is tied to "
         "the real parser by whole-document differential runs under the 16 rule subsets (`miniblock`, 2.5k/60k documents). "
-        "MISSING: for the other rules (containers, table, reference, html_block, lheading, most inline rules) the "
+        "The container rule blockquote is modelled too (line-table rewriting, end-of-quote scan with lazy lines and "
+        "terminators, nested run, restore) and its contract proved by induction on the nesting budget (Props/C01c.lean), "
+        "giving q_total: the sub-parser with block quotes nested to any depth returns normally for every source and "
+        "maxNesting (tie: `qblock`, 3k/80k documents). "
+        "MISSING: for the other rules (list, table, reference, html_block, lheading, most inline rules) the "
         "contracts stay hypotheses, monitored on every "
         "call of every real rule (harness/monitor.py, ~47k rule calls per quick run); renderer/CLI totality "
         "and the CPython stack limit by oracle (time-limited sweeps: random x configurations, bounded-exhaustive "
